@@ -106,8 +106,15 @@ def latched_counter(an, flag, counter, site_block, goal_fn, limit=None):
 
 
 def ok_blocks(fn):
-    return [b for b, blk in enumerate(fn.blocks) if not blk['cleanup'] for st in blk['stmts']
-            if st['k'] == 'assign' and not st['lhs']['p'] and st['lhs']['l'] == 0 and st['rv']['k'] == 'agg' and st['rv']['def'].endswith('Result::Ok')]
+    """Blocks that build the Ok(..) value the function returns (directly into _0, or into the return slot of a helper
+    that was spliced in and is moved to _0 afterwards)."""
+    direct = [b for b, blk in enumerate(fn.blocks) if not blk['cleanup'] for st in blk['stmts']
+              if st['k'] == 'assign' and not st['lhs']['p'] and st['lhs']['l'] == 0 and st['rv']['k'] == 'agg' and st['rv']['def'].endswith('Result::Ok')]
+    lv = origins.trace(fn, 0, [('down', 'Ok')])
+    traced = sorted({lf[1] for lf in lv if lf[0] == 'rv' and lf[3].get('k') == 'agg' and str(lf[3].get('def', '')).endswith('Result::Ok')})
+    if lv and all(lf[0] == 'rv' and lf[3].get('k') == 'agg' for lf in lv) and traced:
+        return traced
+    return direct
 
 
 def check_uncompressed_lemma(R, F, S, rule, gpath, sub):
@@ -132,7 +139,10 @@ def check_uncompressed_lemma(R, F, S, rule, gpath, sub):
             rd = lv[0][1]
             # counter not written between that read and the return
             good = all(not (fn.find_path(rd, lambda x, b=b: x == b) and b != rd) or not fn.find_path(b, lambda x: x == oks[0]) for (b, i, k, n) in int_defs(fn, off) if b != 0)
-            good2, detail = latched_counter(an, flag, off, rd, lambda e: [le(lin(c=1), e), le(e, LEN1), le(e, lin(c=255))][:2], limit=255)
+            # the counter is not written between the read and the Ok(..) that returns it (checked above), so the value
+            # returned is the counter's value where Ok(..) is built; that block is the site of the lemma (the read itself
+            # may sit before the `finished` test when the final checks were moved into a helper that takes the value)
+            good2, detail = latched_counter(an, flag, off, oks[0] if good else rd, lambda e: [le(lin(c=1), e), le(e, LEN1), le(e, lin(c=255))][:2], limit=255)
             good = good and good2
     R.require(good, rule, gpath + '|lemma:Ok(n) => 1 <= n <= len(octets) and n <= 255', fn.where(), 'latched-counter lemma holds: ' + detail, 'lemma premises failed: ' + detail)
     return good
